@@ -308,6 +308,8 @@ def run(ctx):
     rule_INIT(ctx)
     rule_S2(ctx)
     rule_S3(ctx)
+    from ..shape import rule_N3
+    rule_N3(ctx, classes={'Union'})      # the member to split is chosen in log space
     from ..effects import rule_F9
     rule_F9(ctx)      # the recorded construction points are never modified through a call
     rule_T1(ctx, 'Union.split', {'bounds', 'points_bounds', 'log_v_all'}, false_return=True)
